@@ -74,6 +74,22 @@ theorem clookup_set_unique (l : CLookup) (k : String) (c : LContainer) (h : Uniq
   · rename_i hk
     exact uniqueKeys_append_new l k c h (Bool.eq_false_iff.mpr hk)
 
+/-- A fold fails as soon as one element makes the step fail whatever the accumulator is. -/
+theorem foldlM_fails {α β ε} (f : β → α → Except ε β) (l : List α) (a : α) (ha : a ∈ l)
+    (hf : ∀ b, ∃ e, f b a = .error e) : ∀ init, ∃ e, l.foldlM f init = .error e := by
+  induction l with
+  | nil => simp at ha
+  | cons x xs ih =>
+    intro init
+    simp only [List.foldlM_cons, bind, Except.bind]
+    simp only [List.mem_cons] at ha
+    cases hx : f init x with
+    | error e => exact ⟨e, rfl⟩
+    | ok b =>
+      rcases ha with rfl | ha
+      · obtain ⟨e, he⟩ := hf init; rw [he] at hx; cases hx
+      · exact ih ha b
+
 end Spp
 
 namespace Spp
